@@ -306,7 +306,8 @@ def r6_strip_details_bounds(ctx):
             c = n.ast.value
             needle = c.args[0].value if c.args and isinstance(c.args[0], ast.Constant) else None
             searches.append((n, c, needle, n.ast.targets[0].id))
-    need(len(searches) >= 3, 'C03.R6: the three searches (newline, colon, dot) were not found')
+    if len(searches) < 3:
+        return _strip_details_cut_chain(ctx, f, g, rd, q, msg)
     by = {needle: (n, c, var) for (n, c, needle, var) in searches}
     need({'\n', ':', '.'} <= set(by), 'C03.R6: searches for newline / colon / dot not recognised: %s' % sorted(map(repr, by)))
     # window variables
@@ -354,6 +355,72 @@ def r6_strip_details_bounds(ctx):
                ('the window is narrowed although the search may have failed (-1)' if not guarded else 'unexpected window update (%s expected)' % what), anchor=q)
 
 
+def _cut_of(call_sub):
+    """(receiver expr, (needle, which, keep)) for  X.partition(c)[0] / X.rpartition(c)[2] / X.split(c, 1)[0] / X.rsplit(c, 1)[-1] / X.splitlines()[0]"""
+    e = call_sub
+    if not (isinstance(e, ast.Subscript) and isinstance(e.value, ast.Call) and isinstance(e.value.func, ast.Attribute)):
+        return None
+    idx = e.slice
+    if isinstance(idx, ast.UnaryOp) and isinstance(idx.op, ast.USub) and isinstance(idx.operand, ast.Constant):
+        i = -idx.operand.value
+    elif isinstance(idx, ast.Constant) and isinstance(idx.value, int):
+        i = idx.value
+    else:
+        return None
+    c = e.value
+    m = c.func.attr
+    recv = c.func.value
+    needle = c.args[0].value if c.args and isinstance(c.args[0], ast.Constant) else None
+    if m == 'splitlines' and not c.args and i == 0:
+        return recv, ('\n', 'first', 'left')
+    if needle is None:
+        return None
+    if m == 'partition' and i in (0, 2):
+        return recv, (needle, 'first', 'left' if i == 0 else 'right')
+    if m == 'rpartition' and i in (0, 2):
+        return recv, (needle, 'last', 'left' if i == 0 else 'right')
+    maxsplit = c.args[1].value if len(c.args) > 1 and isinstance(c.args[1], ast.Constant) else None
+    if m == 'split' and maxsplit == 1 and i == 0:
+        return recv, (needle, 'first', 'left')
+    if m == 'rsplit' and maxsplit == 1 and i in (-1, 1):
+        return recv, (needle, 'last', 'right')
+    return None
+
+
+def _strip_details_cut_chain(ctx, f, g, rd, q, msg):
+    """second recognised idiom: the class name is cut out by a chain of partition-like operations"""
+    rep = ctx.rep
+    rets = [n for n in g.nodes if n.kind == 'stmt' and isinstance(n.ast, ast.Return)]
+    need(len(rets) == 1, 'C03.R6: neither the index idiom nor a single-expression cut chain was recognised in _strip_exception_details')
+    chain = []
+    node = rets[0]
+    e = rets[0].ast.value
+    depth = 0
+    while depth < 12:
+        depth += 1
+        if isinstance(e, ast.Name):
+            if e.id == msg and all(d.kind == 'param' for d in rd.at(node, msg)):
+                break
+            defs = rd.at(node, e.id)
+            need(len(defs) == 1 and isinstance(defs[0].value, ast.AST), 'C03.R6: cut chain passes through a variable with several definitions')
+            node = defs[0].node
+            e = defs[0].value
+            continue
+        cut = _cut_of(e)
+        need(cut is not None, 'C03.R6: unrecognised step `%s` in the class-name extraction' % ctx.src(e))
+        e, c = cut
+        chain.append(c)
+    chain = chain[::-1]         # innermost (applied first) first
+    rep.note('strip_details_cut_chain', chain)
+    spec_last = ('.', 'last', 'right')
+    spec_other = {('\n', 'first', 'left'), (':', 'first', 'left')}
+    ok = len(chain) == 3 and chain[-1] == spec_last and set(chain[:2]) == spec_other
+    rep.ob('C03.R6', ctx.loc(f, rets[0].ast), 'cut chain %s' % chain, ok,
+           'first line and text before the first colon are cut first, the dotted path is dropped last' if ok else
+           'the class name is extracted by the cuts %s; required: newline and colon cuts (first occurrence, keep left) and only then the last-dot cut (keep right) -- '
+           'otherwise a dot or colon inside the message changes the extracted name' % chain, anchor=q)
+
+
 # ---------------------------------------------------------------------------
 from ..selftest import fire, silent      # noqa: E402
 
@@ -389,6 +456,12 @@ VARIANTS = [
     fire('colon-search-unbounded', 'C03.R6', (CK, "    i = msg.find(':', 0, end)\n", "    i = msg.find(':')\n")),
     fire('start-keeps-the-dot', 'C03.R6', (CK, "        start = i + 1\n", "        start = i\n")),
     fire('narrowing-without-success-test', 'C03.R6', (CK, "    i = msg.find(':', 0, end)\n    if i >= 0:\n        end = i\n", "    i = msg.find(':', 0, end)\n    end = i\n")),
+    fire('strip-details-partition-wrong-order', 'C03.R6',
+         (CK, "    start, end = 0, len(msg)\n    # The exception name must appear on the first line.\n    i = msg.find(\"\\n\")\n    if i >= 0:\n        end = i\n    # retain up to the first colon (if any)\n    i = msg.find(':', 0, end)\n    if i >= 0:\n        end = i\n    # retain just the exception name\n    i = msg.rfind('.', 0, end)\n    if i >= 0:\n        start = i + 1\n    return msg[start: end]\n",
+              "    head = msg.partition('\\n')[0]\n    return head.rpartition('.')[2].partition(':')[0]\n")),
+    silent('strip-details-partition-right-order',
+           (CK, "    start, end = 0, len(msg)\n    # The exception name must appear on the first line.\n    i = msg.find(\"\\n\")\n    if i >= 0:\n        end = i\n    # retain up to the first colon (if any)\n    i = msg.find(':', 0, end)\n    if i >= 0:\n        end = i\n    # retain just the exception name\n    i = msg.rfind('.', 0, end)\n    if i >= 0:\n        start = i + 1\n    return msg[start: end]\n",
+                "    head = msg.partition('\\n')[0]\n    return head.partition(':')[0].rpartition('.')[2]\n")),
     silent('flag-test-rephrased',
            (CK, "    if not flag:\n        msg = 'exception message is different'\n", "    if flag is False or not flag:\n        msg = 'exception message is different'\n"),
            note='compound test keeps the flag fact on the false edge'),
